@@ -155,6 +155,33 @@ func c04HashOfTheKeyRead(r *core.Report) {
 						same = true
 					}
 				}
+				// the key is a field of a small struct a same-package helper returns (tuple.key): the helper read the key
+				// into that very field of the value it returns
+				if sel, isSel := arg.(*ast.SelectorExpr); !same && isSel {
+					if xo := core.ObjOf(info, sel.X); xo != nil {
+						ast.Inspect(sf.Body, func(m ast.Node) bool {
+							as, ok := m.(*ast.AssignStmt)
+							if !ok || len(as.Rhs) != 1 {
+								return true
+							}
+							hc, ok := core.Unparen(as.Rhs[0]).(*ast.CallExpr)
+							if !ok {
+								return true
+							}
+							for ri, l := range as.Lhs {
+								if core.ObjOf(info, l) != xo {
+									continue
+								}
+								if fo := core.Callee(info, hc); fo != nil {
+									if h := p.ByObj[fo.Origin()]; h != nil && h.Body != nil && h.Pkg == sf.Pkg && helperReturnsTheBufferItReadField(p, h, ri, sel.Sel.Name) {
+										same = true
+									}
+								}
+							}
+							return true
+						})
+					}
+				}
 				// the key comes out of a same-package helper that returns the very buffer it read the key into
 				if !same {
 					if o := core.ObjOf(info, arg); o != nil {
@@ -874,6 +901,35 @@ func helperReturnsTheBufferItRead(p *core.Prog, h *core.Func, ri int) bool {
 			}
 		}
 		if !ok {
+			return false
+		}
+		n++
+	}
+	return n > 0
+}
+
+// helperReturnsTheBufferItReadField: every non-error return of h yields, as result ri, a local struct value v such that h
+// handed v.<field> to io.ReadFull.
+func helperReturnsTheBufferItReadField(p *core.Prog, h *core.Func, ri int, field string) bool {
+	info := h.Pkg.TypesInfo
+	g := p.Graph(h)
+	reads := map[string]bool{}
+	for _, c := range core.CallsIn(h.Body, false) {
+		if core.CalleeName(info, c) == "io.ReadFull" && len(c.Args) == 2 {
+			reads[core.ExprStr(core.Unparen(c.Args[1]))] = true
+		}
+	}
+	n := 0
+	for _, rn := range g.Returns() {
+		if definitelyErrorReturn(g, h, rn) {
+			continue
+		}
+		res := returnResults(rn)
+		if len(res) <= ri {
+			return false
+		}
+		id, ok := core.Unparen(res[ri]).(*ast.Ident)
+		if !ok || !reads[id.Name+"."+field] {
 			return false
 		}
 		n++
